@@ -42,7 +42,7 @@ type Template struct {
 	text string // text parsed to create the template (or its parent)
 
 	// Parsing only; cleared after parse.
-	parents   []string // templates whose extends/import clauses led to this one, ending with itself
+	parents   []string // templates whose extends/import clauses led to this one, ending with itself (if it came from the loader)
 	lex       *lexer
 	token     [3]item // three-token lookahead for parser.
 	peekCount int
@@ -221,7 +221,7 @@ func (s *Set) parse(name, text string, cacheAfterParsing bool, parents ...string
 		text:         text,
 		set:          s,
 		passedBlocks: make(map[string]*BlockNode),
-		parents:      append(parents[:len(parents):len(parents)], name),
+		parents:      parents,
 	}
 	defer t.recover(&err)
 
